@@ -3,7 +3,7 @@
 
    Discrete part (exact): skip mask, pair loop and its order, CA prefilter as a squared-distance
    comparison, proline rule, the adjacent-residue exception, best-two bookkeeping.
-   Numerical part (2^-64 fixed point, see Hbond/Model.v): hydrogen position N + 0.1 nm * (C-O)/|C-O|,
+   Numerical part (2^-44 fixed point, see Hbond/Model.v): hydrogen position N + 0.1 nm * (C-O)/|C-O|,
    energy coupling*(1/d_HC + 1/d_NO - 1/d_HO - 1/d_NC), floor at -9.9.
 
    Two variants of ks_assign_hydrogens (two-variant rule):
@@ -67,11 +67,14 @@ Section Frame.
     let d := Z.sqrt (norm2 (vsub a b)) in            (* distance * SC, grid units *)
     if d =? 0 then None else Some (G * SC * SC / d).
 
-  (* ks_donor_acceptor: energy in kcal/mol, fixed point *)
-  Definition ks_energy (hv : hvariant) (rs : list residue) (donor acceptor : nat) : option Z :=
+  Definition hydrogens (hv : hvariant) (rs : list residue) : list (option vec) :=
+    map (hydrogen hv rs) (seq 0 (length rs)).
+
+  (* ks_donor_acceptor: energy in kcal/mol, fixed point; hs = the hcoords array *)
+  Definition ks_energy_h (hs : list (option vec)) (rs : list residue) (donor acceptor : nat) : option Z :=
     let rd := nth donor rs (mkRes None None None None false) in
     let ra := nth acceptor rs (mkRes None None None None false) in
-    match hydrogen hv rs donor with
+    match nth donor hs None with
     | None => None
     | Some h =>
       let n := to_fx (at_idx (r_n rd)) in
@@ -87,6 +90,9 @@ Section Frame.
       | _, _, _, _ => None
       end
     end.
+
+  Definition ks_energy (hv : hvariant) (rs : list residue) (donor acceptor : nat) : option Z :=
+    ks_energy_h (hydrogens hv rs) rs donor acceptor.
 End Frame.
 
 (* ----------------------------------------------------------------- store_energies *)
@@ -127,12 +133,12 @@ Definition ca_close (p : ks_params) (xyz : list vec) (ra rb : residue) : bool :=
 
 (* one call site "e = ks_donor_acceptor(donor, acceptor); if (e < cutoff && !is_proline[donor]) store" ;
    a degenerate geometry (coinciding atoms) makes the whole frame undefined: None *)
-Definition try_store (p : ks_params) (xyz : list vec) (oob : vec) (rs : list residue)
+Definition try_store (p : ks_params) (en : nat -> nat -> option Z) (rs : list residue)
            (st : option (list slots)) (donor acceptor : nat) : option (list slots) :=
   match st with
   | None => None
   | Some l =>
-    match ks_energy (ks_G p) xyz oob (ks_hv p) rs donor acceptor with
+    match en donor acceptor with
     | None => None
     | Some e =>
       if (e <? ks_ethr p) && negb (r_pro (nth donor rs (mkRes None None None None false)))
@@ -141,24 +147,30 @@ Definition try_store (p : ks_params) (xyz : list vec) (oob : vec) (rs : list res
     end
   end.
 
-Definition pair_step (p : ks_params) (xyz : list vec) (oob : vec) (rs : list residue)
+Definition pair_step (p : ks_params) (xyz : list vec) (en : nat -> nat -> option Z) (rs : list residue)
            (st : option (list slots)) (ij : nat * nat) : option (list slots) :=
   let (ri, rj) := ij in
   let a := nth ri rs (mkRes None None None None false) in
   let b := nth rj rs (mkRes None None None None false) in
   if r_skip a || r_skip b then st
   else if ca_close p xyz a b then
-    let st1 := try_store p xyz oob rs st ri rj in
-    if Nat.eqb rj (S ri) then st1 else try_store p xyz oob rs st1 rj ri
+    let st1 := try_store p en rs st ri rj in
+    if Nat.eqb rj (S ri) then st1 else try_store p en rs st1 rj ri
   else st.
 
 (* for (ri = 0; ri < n; ri++) for (rj = ri+1; rj < n; rj++) *)
 Definition ks_pairs (n : nat) : list (nat * nat) :=
   flat_map (fun i => map (pair i) (seq (S i) (n - S i))) (seq 0 n).
 
+(* the loop with an arbitrary energy function (the correspondence tabulates the energies once) *)
+Definition ks_loop (p : ks_params) (init : slots) (rs : list residue) (xyz : list vec)
+           (en : nat -> nat -> option Z) : option (list slots) :=
+  fold_left (pair_step p xyz en rs) (ks_pairs (length rs)) (Some (repeat init (length rs))).
+
+(* ks_assign_hydrogens once per frame, then the loop *)
 Definition kabsch_sander_frame (p : ks_params) (init : slots) (rs : list residue)
            (xyz : list vec) (oob : vec) : option (list slots) :=
-  fold_left (pair_step p xyz oob rs) (ks_pairs (length rs)) (Some (repeat init (length rs))).
+  ks_loop p init rs xyz (ks_energy_h (ks_G p) xyz oob (hydrogens (ks_G p) xyz oob (ks_hv p) rs) rs).
 
 (* ----------------------------------------------------------------- observations for the correspondence *)
 (* per donor the list of (acceptor, energy) actually held, slot order *)
